@@ -50,11 +50,26 @@ pub struct Cmd {
     /// short, the next one fails with EFBIG (like a quota or a nearly full disk)
     #[serde(default)]
     pub fsize_limit: Option<u64>,
+    /// stdin bytes are delivered in pieces: the writer stops at each of these offsets until the child has taken
+    /// everything delivered so far out of the pipe (FIONREAD == 0, then a short pause), so a single read() in the child
+    /// sees at most the bytes up to that offset
+    #[serde(default)]
+    pub stdin_splits: Vec<usize>,
+    /// stdout is an O_NONBLOCK pipe with a slow reader: (initial stall in ms, bytes per read, pause between reads in
+    /// microseconds). Writes beyond the pipe capacity get EAGAIN in the child. Everything read is still collected.
+    #[serde(default)]
+    pub stdout_nonblock_slow: Option<(u64, usize, u64)>,
+    /// environment variables whose values are arbitrary bytes (not necessarily UTF-8)
+    #[serde(default)]
+    pub env_bytes: Vec<(String, Vec<u8>)>,
+    /// the reader of the stdout pipe goes away after taking this many bytes (like `kestrel ... | head -c N`)
+    #[serde(default)]
+    pub stdout_reader_leaves_after: Option<usize>,
 }
 
 impl Cmd {
     pub fn new(args: &[&str]) -> Cmd {
-        Cmd { args: args.iter().map(|a| a.as_bytes().to_vec()).collect(), env: vec![], stdin: StdinSpec::Null, stdout_file: None, stdout_closed_pipe: false, stdin_path: None, fsize_limit: None, pty: None }
+        Cmd { args: args.iter().map(|a| a.as_bytes().to_vec()).collect(), env: vec![], stdin: StdinSpec::Null, stdout_file: None, stdout_closed_pipe: false, stdin_path: None, fsize_limit: None, pty: None, stdin_splits: vec![], stdout_nonblock_slow: None, env_bytes: vec![], stdout_reader_leaves_after: None }
     }
     pub fn env(mut self, k: &str, v: &str) -> Cmd {
         self.env.push((k.to_string(), v.to_string()));
@@ -175,6 +190,9 @@ pub fn run_limit(cmd: &Cmd, cwd: &Path, limit: Duration) -> Out {
     for (k, v) in &cmd.env {
         c.env(k, v);
     }
+    for (k, v) in &cmd.env_bytes {
+        c.env(k, std::ffi::OsStr::from_bytes(v));
+    }
     c.current_dir(cwd);
     let pty_stdin = cmd.pty.as_ref().map(|p| p.stdin_is_tty).unwrap_or(false);
     let pty_stdout = cmd.pty.as_ref().map(|p| p.stdout_is_tty).unwrap_or(false);
@@ -192,8 +210,19 @@ pub fn run_limit(cmd: &Cmd, cwd: &Path, limit: Duration) -> Out {
         let fh = std::fs::File::open(cwd.join(pth)).expect("stdin path");
         c.stdin(fh);
     }
+    let mut nb_read_end: Option<std::fs::File> = None;
     if pty_stdout {
         // set below together with the pty
+    } else if cmd.stdout_nonblock_slow.is_some() {
+        use std::os::unix::io::FromRawFd;
+        let mut fds = [0i32; 2];
+        unsafe {
+            assert_eq!(libc::pipe2(fds.as_mut_ptr(), libc::O_CLOEXEC), 0);
+            let fl = libc::fcntl(fds[1], libc::F_GETFL);
+            libc::fcntl(fds[1], libc::F_SETFL, fl | libc::O_NONBLOCK);
+            c.stdout(Stdio::from_raw_fd(fds[1]));
+            nb_read_end = Some(std::fs::File::from_raw_fd(fds[0]));
+        }
     } else if cmd.stdout_closed_pipe {
         use std::os::unix::io::FromRawFd;
         let mut fds = [0i32; 2];
@@ -300,20 +329,76 @@ pub fn run_limit(cmd: &Cmd, cwd: &Path, limit: Duration) -> Out {
     } else if let StdinSpec::Bytes(b) = &cmd.stdin {
         let mut si = child.stdin.take().unwrap();
         let b = b.clone();
+        let mut splits = cmd.stdin_splits.clone();
+        splits.retain(|&x| x > 0 && x < b.len());
+        splits.sort();
+        splits.dedup();
         Some(std::thread::spawn(move || {
-            let _ = si.write_all(&b);
+            use std::os::unix::io::AsRawFd;
+            let mut at = 0usize;
+            for sp in splits {
+                if si.write_all(&b[at..sp]).is_err() {
+                    return;
+                }
+                at = sp;
+                // wait until the child has drained the pipe (bounded), then a little longer so that its read() has returned
+                let t = Instant::now();
+                loop {
+                    let mut pending: libc::c_int = 0;
+                    let rc = unsafe { libc::ioctl(si.as_raw_fd(), libc::FIONREAD, &mut pending) };
+                    if rc != 0 || pending == 0 || t.elapsed() > Duration::from_millis(2000) {
+                        break;
+                    }
+                    std::thread::sleep(Duration::from_micros(200));
+                }
+                std::thread::sleep(Duration::from_millis(3));
+            }
+            let _ = si.write_all(&b[at..]);
         }))
     } else {
         None
     };
-    let so = child.stdout.take();
-    let out_thread = so.map(|mut so| {
-        std::thread::spawn(move || {
+    let mut so = child.stdout.take();
+    let out_thread = if let (Some(mut rd), Some((stall_ms, piece, pause_us))) = (nb_read_end, cmd.stdout_nonblock_slow) {
+        Some(std::thread::spawn(move || {
+            std::thread::sleep(Duration::from_millis(stall_ms));
             let mut v = vec![];
-            let _ = so.read_to_end(&mut v);
+            let mut buf = vec![0u8; piece.max(1)];
+            loop {
+                match rd.read(&mut buf) {
+                    Ok(0) | Err(_) => break,
+                    Ok(n) => v.extend_from_slice(&buf[..n]),
+                }
+                if pause_us > 0 {
+                    std::thread::sleep(Duration::from_micros(pause_us));
+                }
+            }
             v
+        }))
+    } else if let (true, Some(k)) = (so.is_some(), cmd.stdout_reader_leaves_after) {
+        let mut so = so.take().unwrap();
+        Some(std::thread::spawn(move || {
+            let mut v = vec![];
+            let mut buf = [0u8; 4096];
+            while v.len() < k {
+                let want = (k - v.len()).min(buf.len());
+                match so.read(&mut buf[..want]) {
+                    Ok(0) | Err(_) => break,
+                    Ok(n) => v.extend_from_slice(&buf[..n]),
+                }
+            }
+            drop(so); // the reader is gone: further writes of the child get EPIPE
+            v
+        }))
+    } else {
+        so.map(|mut so| {
+            std::thread::spawn(move || {
+                let mut v = vec![];
+                let _ = so.read_to_end(&mut v);
+                v
+            })
         })
-    });
+    };
     let mut se = child.stderr.take().unwrap();
     let err_thread = std::thread::spawn(move || {
         let mut v = vec![];
@@ -354,6 +439,37 @@ pub fn run_limit(cmd: &Cmd, cwd: &Path, limit: Duration) -> Out {
     let stdout = out_thread.map(|t| t.join().unwrap_or_default()).unwrap_or_default();
     let stderr = String::from_utf8_lossy(&err_thread.join().unwrap_or_default()).to_string();
     Out { code: status.code(), signal: status.signal(), timed_out, stdout, stderr, wall_ms: t0.elapsed().as_millis(), tty_output }
+}
+
+/// Make `path` a named pipe and feed `data` into it from a thread (the open waits, bounded, until the reader opens it).
+pub fn feed_fifo(path: PathBuf, data: Vec<u8>) -> Result<std::thread::JoinHandle<()>, String> {
+    use std::os::unix::fs::OpenOptionsExt;
+    let cpath = std::ffi::CString::new(path.to_str().unwrap()).unwrap();
+    if unsafe { libc::mkfifo(cpath.as_ptr(), 0o600) } != 0 {
+        return Err("MACHINERY: mkfifo failed".into());
+    }
+    Ok(std::thread::spawn(move || {
+        let t0 = Instant::now();
+        loop {
+            match std::fs::OpenOptions::new().write(true).custom_flags(libc::O_NONBLOCK).open(&path) {
+                Ok(mut f) => {
+                    unsafe {
+                        use std::os::unix::io::AsRawFd;
+                        let fl = libc::fcntl(f.as_raw_fd(), libc::F_GETFL);
+                        libc::fcntl(f.as_raw_fd(), libc::F_SETFL, fl & !libc::O_NONBLOCK);
+                    }
+                    let _ = f.write_all(&data);
+                    break;
+                }
+                Err(_) => {
+                    if t0.elapsed().as_secs() > 20 {
+                        break;
+                    }
+                    std::thread::sleep(Duration::from_millis(2));
+                }
+            }
+        }
+    }))
 }
 
 /// Serialize one keyring entry in the documented format.
